@@ -339,6 +339,12 @@ def check(run: Run) -> None:
     run.rule("C10.R10", "get_method_and_class answers 'no method' for the unknown type by identity (class_object is Any), before any MRO walk")
     _check_any_guard(run, m)
     # which filters Where accepts, and which conditionals are refused, is decided by the types the node rules record
+    check_refusals_propagate(run, m, "C10.R12")
+    run.rule("C10.R13", "the operators emit the lambda that came back from the pipeline, in the designed stage order (C01.R1-R3 re-evaluated)")
+    from ..report import Relabel as _Rl
+    from .c01 import check_plumbing as _plumb
+
+    _plumb(_Rl(run, "C10.R13"), m)
     run.rule("C10.R11", "the node type rules hold (C08.R1 re-evaluated): a comparison or boolean combination is typed bool whatever its operands, arithmetic is never typed bool - otherwise Where refuses a legal filter or accepts a non-boolean one, and visit_IfExp's refusal changes")
     from ..report import run_stage
 
@@ -530,4 +536,71 @@ def _under_not(x: ast.AST, root: ast.AST) -> bool:
             return True
         if a is root:
             break
+    return False
+
+
+# handlers that may catch a designed refusal (ValueError) without handing one on: one named construct each
+SWALLOWING_HANDLERS = {
+    ("func_adl.util_ast", "safe_parse_wrapper"): "recovering the source of a captured helper is an *attempt*: whatever goes wrong, the helper stays a call by name (C05.R9)",
+}
+CATCH_ALL = {"Exception", "BaseException", "ValueError"}
+
+
+def check_refusals_propagate(run: Run, m, rule: str, modules=("func_adl.type_based_replacement", "func_adl.object_stream", "func_adl.util_ast", "func_adl.util_types", "func_adl.ast.syntatic_sugar", "func_adl.ast.function_simplifier", "func_adl.ast.meta_data", "func_adl.event_dataset")) -> None:
+    """A designed refusal is a ValueError that reaches the user (FuncADLIndexError in the simplifier; the executor's own
+    exception in value()). An `except` clause that can catch it - ValueError, Exception, BaseException, a bare except, a
+    tuple with one of them - and does not end in a `raise` on every path swallows the refusal: the call goes on with a
+    fallback (`continue`, `return None`) and emits a query where the property demands an error. The handlers that do this
+    by design are enumerated, one named construct each; inside their `try` an explicit `raise` is dead code (the refusal
+    it spells out never leaves the function)."""
+    run.rule(rule, "no except clause swallows a designed refusal: handlers that can catch ValueError / Exception re-raise on every path, but for the enumerated 'attempt' of the helper-source recovery")
+    n = 0
+    for fi in m.funcs.values():
+        if fi.module.name not in modules:
+            continue
+        for t in [x for x in own_nodes(fi) if isinstance(x, ast.Try)]:
+            for h in t.handlers:
+                n += 1
+                types = [ast.unparse(e_).split(".")[-1] for e_ in (h.type.elts if isinstance(h.type, ast.Tuple) else [h.type])] if h.type is not None else ["<bare>"]
+                wide = h.type is None or any(x in CATCH_ALL or x == "FuncADLIndexError" for x in types)
+                if not wide:
+                    run.ok(rule, fi, f"handler for {', '.join(types)} cannot catch a designed refusal")
+                    continue
+                reraises = _always_raises(h.body)
+                enumerated = SWALLOWING_HANDLERS.get((fi.module.name, fi.name))
+                if reraises:
+                    # a conversion: what is raised instead must itself be a designed refusal type
+                    conv = [r_ for r_ in ast.walk(ast.Module(body=h.body, type_ignores=[])) if isinstance(r_, ast.Raise) and r_.exc is not None]
+                    bad_conv = [ast.unparse(r_.exc)[:40] for r_ in conv if not ((isinstance(r_.exc, ast.Call) and isinstance(r_.exc.func, ast.Name) and r_.exc.func.id in ("ValueError", "FuncADLIndexError")) or (isinstance(r_.exc, ast.Name) and h.name is not None and r_.exc.id == h.name))]
+                    run.check(not bad_conv, rule, fi, h, "a handler that converts an exception raises a designed refusal type (or the exception it caught)", f"{fi.name} catches {', '.join(types)} and raises {bad_conv[0] if bad_conv else ''} instead: the designed ValueError reaches the user as another exception type", "raise ValueError(..) from e / raise", key=f"refusal converted in {fi.name}")
+                    continue
+                if enumerated is not None:
+                    run.ok(rule, fi, f"enumerated swallowing handler ({enumerated})")
+                    dead = [r_ for st_ in t.body for r_ in ast.walk(st_) if isinstance(r_, ast.Raise) and not _inside_nested_def(r_, t)]
+                    for r_ in dead:
+                        run.fail(rule, fi, r_, f"{fi.name} raises {ast.unparse(r_.exc)[:60] if r_.exc else 'again'} inside the very `try` whose handler catches {', '.join(types)} and carries on: the refusal never leaves the function - the value it was meant to refuse stays in the query (as a call by name, a bare name) and no ValueError reaches the user", "raise outside the try (or re-raise it in the handler)", key=f"refusal raised inside the swallowing try of {fi.name}")
+                    continue
+                run.fail(rule, fi, h, f"{fi.name} catches {', '.join(types)} and carries on ({ast.unparse(h.body[-1])[:40] if h.body else 'pass'}): a designed refusal raised below it - a missing required argument, a non-boolean filter, an incompatible conditional, a constant that cannot be transported - is swallowed, and a query is emitted where the property demands a ValueError (in value(): the executor's own exception no longer reaches the caller)", "let the ValueError propagate (catch the narrow lookup error you mean: KeyError, AttributeError, IndexError)", key=f"designed refusal swallowed in {fi.name}")
+    run.notes["except_handlers_seen"] = n
+
+
+def _always_raises(body) -> bool:
+    if not body:
+        return False
+    last = body[-1]
+    if isinstance(last, ast.Raise):
+        return True
+    if isinstance(last, ast.If) and last.orelse:
+        return _always_raises(last.body) and _always_raises(last.orelse)
+    return False
+
+
+def _inside_nested_def(n: ast.AST, stop: ast.AST) -> bool:
+    from ..model import ancestors
+
+    for a in ancestors(n):
+        if a is stop:
+            return False
+        if isinstance(a, (ast.FunctionDef, ast.AsyncFunctionDef, ast.Lambda)):
+            return True
     return False
